@@ -91,6 +91,17 @@ def base_terms(kind, n, pool, r):
             out.append(v ** (i % 2) + (v + 1) ** 1)
         elif kind == "cdiv":
             out.append(2 / (v + 3))
+        elif kind == "dotshare":
+            # dot products that SHARE their left vector object; each right vector occurs in no other term
+            if not out:
+                from optyx import VectorVariable as _VVd
+                base_terms.dot_left = _VVd("dl", 3)
+                base_terms.dot_rights = [_VVd(f"dr{j_}", 3) for j_ in range(3)]
+                base_terms.dot_once = _VVd("dq", 3)          # occurs in ONE term only, as the right operand
+            if i == 7:
+                out.append(base_terms.dot_left.dot(base_terms.dot_once))
+            else:
+                out.append(base_terms.dot_left.dot(base_terms.dot_rights[i % 3]) if i % 5 else base_terms.dot_rights[i % 3].dot(base_terms.dot_left))
         elif kind == "cexpr_r":
             # a constant-valued EXPRESSION (never a bare literal) as the RIGHT factor / divisor of a non-constant left operand
             cr = [lambda: gen.Constant(2.0) * 3 - 1, lambda: -gen.Constant(2.0), lambda: gen.Constant(3.0) / 2, lambda: gen.Constant(0.5) * 0.5,
@@ -137,7 +148,7 @@ def run(rep: vk.Report):
     probe_ = gen.Gen(random.Random(0), profile="poly", pool=gen.Pool(random.Random(0), with_matrices=False))
     fsize = probe_.focused_size()
     focus_ids = sorted(random.Random(rng.random()).sample(range(fsize), min(fsize, 14 if quick else 160)))
-    for kind in ["param", "divc", "negpow", "fracpow", "pow01", "cdiv", "cexpr", "cexpr_r", "clones", "distinct", "expvar", "varpow"] + \
+    for kind in ["param", "divc", "negpow", "fracpow", "pow01", "cdiv", "cexpr", "cexpr_r", "clones", "distinct", "expvar", "varpow", "dotshare"] + \
             [f"focused:{i_}" for i_ in focus_ids]:
         for op, n in ([("+", 401), ("-", 400)] if quick else [("+", 399), ("+", 400), ("+", 401), ("-", 400), ("-", 900), ("*", 401)]):
             plan.append((kind, op, n, "left" if op != "+" or quick else rng.choice(["left", "balanced"])))
@@ -161,6 +172,15 @@ def run(rep: vk.Report):
         if op in ("*", "/"):
             # keep products numerically tame: factors near 1
             terms = [terms[0]] + [(t * 0.001 + 1) for t in terms[1:]]
+        if rng.random() < 0.5:
+            # a user who inspects the TERMS before accumulating them: whatever a term remembers about itself (its degree, its class)
+            # must not change what the accumulation is
+            for t_ in terms[:6] + terms[-3:]:
+                try:
+                    t_.degree
+                    t_.is_linear()
+                except Exception:
+                    pass
         shapes = {"left": common.build_chain(terms, op, "left")}
         if op in ("+", "*"):
             shapes["balanced"] = common.build_chain(terms, op, "balanced")
